@@ -31,6 +31,23 @@ theorem lock_checker_sound (s : Stmt) (hb : balanced s = true) :
     control-flow path, with a lock still held (regenerated; re-checked by the kernel on every run) -/
 theorem all_functions_balanced : Gen.Locks.all.all (fun p => balanced p.2) = true := by decide
 
+/-- The regenerated skeletons also carry a `need l` in front of every access to a field documented as
+    protected by mutex `l` of the same struct (the maps and slices of Allocation, Manager, TransactionMap,
+    bindingManager, permissionMap; `_nonce`/`_lifetime`/`_refreshedAt`/`stopFunc`; Client.relayedConn /
+    tcpAllocation) and in front of every Find / Delete / CloseAndDeleteAll on the client's transaction
+    table (Client.mutexTrMap).  `balanced` rejects a skeleton in which some path reaches a `need l` without
+    `l` (`chk_no_fault`), so the theorem above is also: **every such access happens with its mutex held, on
+    every control-flow path** — for today's source. -/
+theorem guarded_accesses_locked : ∀ p ∈ Gen.Locks.all, balanced p.2 = true := by
+  have h := all_functions_balanced
+  rw [List.all_eq_true] at h
+  exact h
+
+/-- non-vacuity: an access without the lock, or after the lock was released, is rejected -/
+example : balanced (.seq (.need 3) .ret) = false := by decide
+example : balanced (.seq (.acq 3) (.seq (.rel 3) (.need 3))) = false := by decide
+example : balanced (.seq (.acq 3) (.seq (.deferRel 3) (.seq (.need 3) .ret))) = true := by decide
+
 /-! guard-before-effect for the request handlers -/
 
 def gAuth : Nat := 1000
